@@ -453,3 +453,88 @@ def fixture_check(tier):
 
 TASK = Task("melody", FUNCS, pair_space, single_space)
 TASK.fixture_check = fixture_check
+
+
+# ---------------------------------------------------------------------------------- edge relations (C09)
+PIPE = "melody.to_cent_voicing+measures"
+
+
+def edge_space(tier, phase):
+    """smaller pair space for the pitch relations of C09: all 2-frame words x all time-base pairs, and 3-frame words
+    whose estimate changes pitch / sign between neighbouring frames, on identical, shifted and late estimate bases"""
+    sym = symbols(phase)
+    h = HOPS[phase]
+    out, seen = [], set()
+
+    def add(rb, eb, w):
+        n = len(w)
+        st = (side(timebase(rb, n, h), [sym[p[0]] for p in w]), side(timebase(eb, n, h), [sym[p[1]] for p in w]))
+        if st not in seen:
+            seen.add(st)
+            out.append(st)
+    frames = [(r, e) for r in REF_SYMS for e in EST_SYMS]
+    bases = ("same", "shifted", "shorter", "longer", "late", "lateg")
+    for w in words(frames, 2):
+        for rb in ("same", "late"):
+            for eb in bases if tier == "thorough" else ("same", "shifted", "late"):
+                add(rb, eb, w)
+    for w in words([(r, e) for r in ("f0", "f1") for e in ("f0", "-f0", "p51", "f1")], 3):
+        for eb in ("same", "shifted", "late"):
+            add("same", eb, w)
+    return out
+
+
+def _scaled(state, k_ref, k_est):
+    (rt, rf, rr), (et, ef, ev) = parts(state[0]), parts(state[1])
+    return (side(rt, [x * k_ref for x in rf], rr), side(et, [x * k_est for x in ef], ev))
+
+
+def _scale_edges(state):
+    return [(n, _scaled(state, k, k)) for n, k in (("x2", 2.0), ("x0.5", 0.5), ("x2^(7/12)", 2.0 ** (7 / 12.0)),
+                                                   ("x1.5", 1.5))]
+
+
+def _octave_edges(state):
+    return [(n, _scaled(state, 1.0, k)) for n, k in (("est-x2", 2.0), ("est-x0.5", 0.5))]
+
+
+def _negate_edges(state):
+    import itertools
+    (rt, rf, rr), (et, ef, ev) = parts(state[0]), parts(state[1])
+    idx = [i for i, f in enumerate(ef) if f != 0]
+    out = []
+    for r in range(1, len(idx) + 1):
+        for sub in itertools.combinations(idx, r):
+            nf = [(-f if i in sub else f) for i, f in enumerate(ef)]
+            out.append(("negate%s" % (list(sub),), (state[0], side(et, nf, ev))))
+    return out
+
+
+_DEF_CACHE = {}
+
+
+def _decidable(state, fname):
+    """skip states on which some pitch difference (also of interpolated frames) is within rounding distance of the
+    tolerance: there a common factor may legitimately flip the comparison (the property excludes them)"""
+    r = _DEF_CACHE.get(state)
+    if r is None:
+        try:
+            TASK.func(PIPE).expected(state, {})
+            r = True
+        except Undefined:
+            r = False
+        if len(_DEF_CACHE) < 200000:
+            _DEF_CACHE[state] = r
+    return r
+
+
+from mc.tasks.base import Undefined  # noqa: E402
+
+TASK.edge_space = edge_space
+TASK.edges = {
+    "pitchscale": {"apply": _scale_edges, "funcs": [PIPE], "keys": None, "ok": _decidable},
+    "octave": {"apply": _octave_edges, "funcs": [PIPE], "keys": ["Voicing Recall", "Voicing False Alarm",
+                                                                 "Raw Chroma Accuracy"], "ok": _decidable},
+    "negate": {"apply": _negate_edges, "funcs": [PIPE], "keys": ["Raw Pitch Accuracy", "Raw Chroma Accuracy"],
+               "ok": _decidable},
+}
